@@ -84,16 +84,26 @@ func (g *GoBackNConn) serverHandshake() error { // nolint:gocyclo
 	var n uint8
 	var resent bool
 
+	// recvPending is true while a read that we requested from the receive
+	// goroutine has not yet been handed back to us. We only ever request
+	// one read at a time, so that no extra read is left over once the
+	// handshake completes. A left over read would steal (and drop) a packet
+	// of the data phase.
+	var recvPending bool
+
 handshakeLoop:
 	for {
 		g.log.Debugf("Waiting for client SYN")
-		select {
-		case <-g.ctx.Done():
-			return nil
-		case <-g.quit:
-			return nil
-		case recvNext <- 1:
-		default:
+		if !recvPending {
+			select {
+			case <-g.ctx.Done():
+				return nil
+			case <-g.quit:
+				return nil
+			case recvNext <- 1:
+				recvPending = true
+			default:
+			}
 		}
 
 		var b []byte
@@ -103,6 +113,7 @@ handshakeLoop:
 		case <-g.quit:
 			return nil
 		case b = <-recvChan:
+			recvPending = false
 		}
 
 		msg, err := Deserialize(b)
@@ -156,13 +167,16 @@ handshakeLoop:
 
 		// Wait for SYNACK
 		g.log.Debugf("Waiting for client SYNACK")
-		select {
-		case recvNext <- 1:
-		case <-g.ctx.Done():
-			return g.ctx.Err()
-		case <-g.quit:
-			return nil
-		default:
+		if !recvPending {
+			select {
+			case recvNext <- 1:
+				recvPending = true
+			case <-g.ctx.Done():
+				return g.ctx.Err()
+			case <-g.quit:
+				return nil
+			default:
+			}
 		}
 
 		select {
@@ -179,6 +193,7 @@ handshakeLoop:
 		case <-g.quit:
 			return nil
 		case b = <-recvChan:
+			recvPending = false
 		}
 
 		msg, err = Deserialize(b)
